@@ -176,7 +176,7 @@ def format_templates(ctx, rule, files):
         n += 1
         for call, vals in fmtmix.findings(fi.node):
             ctx.fail(rule, fi, f"data-in-format-template:{fi.name}",
-                     f"{fi.qual}: `{A_unparse(call.func)}` receives an f-string that interpolates {vals} AND carries a %-directive for its further arguments: "
+                     f"{fi.qual}: `{A_unparse(call.func) if hasattr(call, 'func') else 'the % operator'}` receives an f-string that interpolates {vals} AND carries a %-directive for its further arguments: "
                      f"a '%' in the interpolated value is read as a directive and formatting raises (swallowed by suppress_exceptions callers: the action is skipped)", node=call)
     ctx.ob(rule, "format templates", f"{n} functions in {len(files)} file(s): no %-template is assembled from data", file=sorted(files)[0] if files else "")
     return n
